@@ -4,11 +4,15 @@
    (front/TokClean.v: it means no byte is left); the parser only ever moves forward through the list (the same compositional
    proof as ParseSafe.v / ParseStrict.v, for the suffix-closed predicate cc). *)
 From Coq Require Import List NArith ZArith Bool Arith Lia.
-Require Import Bebop.front.Tok Bebop.front.Parse Bebop.front.TokSafe Bebop.front.TokFuel Bebop.front.TokProgress Bebop.front.TokClean.
+Require Import Bebop.front.Tok Bebop.front.Parse Bebop.front.TokSafe Bebop.front.TokFuel Bebop.front.TokProgress Bebop.front.TokClean Bebop.front.TokSticky.
 Import ListNotations.
 
+Section Forward.
+Variable P : list nres -> Prop.
+Hypothesis P_tl : forall x r, P (x :: r) -> P r.
+
 Definition done_m {A} (m : M A) : Prop :=
-  forall s, cc (rs s) -> match m s with POk _ s' => cc (rs s') | _ => True end.
+  forall s, P (rs s) -> match m s with POk _ s' => P (rs s') | _ => True end.
 
 Lemma done_ret {A} (a : A) : done_m (ret a).
 Proof. intros s H. exact H. Qed.
@@ -23,8 +27,8 @@ Qed.
 Lemma done_p_next : done_m p_next.
 Proof.
   intros s H. unfold p_next. destruct (keep s); [exact H|]. destruct (rs s) as [|[t e|e|] r] eqn:E; cbn [rs]; try exact I.
-  - exact (cc_tl _ _ H).
-  - exact (cc_tl _ _ H).
+  - exact (P_tl _ _ H).
+  - exact (P_tl _ _ H).
 Qed.
 Lemma done_panic {A} : done_m (fun _ : pst => @PPanic A).
 Proof. intros s H. exact I. Qed.
@@ -34,7 +38,7 @@ Lemma done_p_kind : done_m p_kind. Proof. intros s H. exact H. Qed.
 Lemma done_p_haserr : done_m p_haserr. Proof. intros s H. exact H. Qed.
 
 Create HintDb pdone.
-#[export] Hint Resolve done_ret done_fail done_nofuel done_panic done_p_next done_p_unnext done_p_tok done_p_kind done_p_haserr  : pdone.
+#[local] Hint Resolve done_ret done_fail done_nofuel done_panic done_p_next done_p_unnext done_p_tok done_p_kind done_p_haserr  : pdone.
 
 Ltac dnm :=
   repeat first
@@ -47,69 +51,69 @@ Ltac dnm :=
 
 Lemma done_expect_any_of_next ks : done_m (expect_any_of_next ks).
 Proof. unfold expect_any_of_next. dnm. Qed.
-#[export] Hint Resolve done_expect_any_of_next  : pdone.
+#[local] Hint Resolve done_expect_any_of_next  : pdone.
 Lemma done_expect_next ks : done_m (expect_next ks).
 Proof. induction ks as [|k ks IH]; cbn [expect_next]; dnm. Qed.
-#[export] Hint Resolve done_expect_next  : pdone.
+#[local] Hint Resolve done_expect_next  : pdone.
 Lemma done_opt_newline : done_m opt_newline.
 Proof. unfold opt_newline. dnm. Qed.
-#[export] Hint Resolve done_opt_newline  : pdone.
+#[local] Hint Resolve done_opt_newline  : pdone.
 Lemma done_read_until_semi g acc : done_m (read_until_semi g acc).
 Proof. revert acc. induction g as [|g IH]; intros acc; cbn [read_until_semi]; dnm. Qed.
-#[export] Hint Resolve done_read_until_semi  : pdone.
+#[local] Hint Resolve done_read_until_semi  : pdone.
 
 Lemma done_read_enum_value g prev bf uns bits : done_m (read_enum_value g prev bf uns bits).
 Proof. unfold read_enum_value. dnm. Qed.
-#[export] Hint Resolve done_read_enum_value  : pdone.
+#[local] Hint Resolve done_read_enum_value  : pdone.
 Lemma done_read_deprecated : done_m read_deprecated.
 Proof. unfold read_deprecated. dnm. Qed.
-#[export] Hint Resolve done_read_deprecated  : pdone.
+#[local] Hint Resolve done_read_deprecated  : pdone.
 Lemma done_skip_eol g : done_m (skip_eol_comments g).
 Proof. induction g as [|g IH]; cbn [skip_eol_comments]; dnm. Qed.
-#[export] Hint Resolve done_skip_eol  : pdone.
+#[local] Hint Resolve done_skip_eol  : pdone.
 Lemma done_read_enum_loop g : forall bf uns bits opts cm dm dep, done_m (read_enum_loop g bf uns bits opts cm dm dep).
 Proof. induction g as [|g IH]; intros; cbn [read_enum_loop]; dnm. Qed.
-#[export] Hint Resolve done_read_enum_loop  : pdone.
+#[local] Hint Resolve done_read_enum_loop  : pdone.
 Lemma done_read_enum g bf : done_m (read_enum g bf).
 Proof. unfold read_enum. dnm. Qed.
-#[export] Hint Resolve done_read_enum  : pdone.
+#[local] Hint Resolve done_read_enum  : pdone.
 Lemma done_array_suffix g : forall ft, done_m (array_suffix g ft).
 Proof. induction g as [|g IH]; intros; cbn [array_suffix]; dnm. Qed.
-#[export] Hint Resolve done_array_suffix  : pdone.
+#[local] Hint Resolve done_array_suffix  : pdone.
 Lemma done_read_field_type g : done_m (read_field_type g).
 Proof. induction g as [|g IH]; cbn [read_field_type]; dnm. Qed.
-#[export] Hint Resolve done_read_field_type  : pdone.
+#[local] Hint Resolve done_read_field_type  : pdone.
 Lemma done_read_struct_loop g : forall fs cm tags dm dep, done_m (read_struct_loop g fs cm tags dm dep).
 Proof. induction g as [|g IH]; intros; cbn [read_struct_loop]; dnm. Qed.
-#[export] Hint Resolve done_read_struct_loop  : pdone.
+#[local] Hint Resolve done_read_struct_loop  : pdone.
 Lemma done_read_struct g : done_m (read_struct g).
 Proof. unfold read_struct. dnm. Qed.
-#[export] Hint Resolve done_read_struct  : pdone.
+#[local] Hint Resolve done_read_struct  : pdone.
 Lemma done_read_message_loop g : forall fs cm tags dm dep, done_m (read_message_loop g fs cm tags dm dep).
 Proof. induction g as [|g IH]; intros; cbn [read_message_loop]; dnm. Qed.
-#[export] Hint Resolve done_read_message_loop  : pdone.
+#[local] Hint Resolve done_read_message_loop  : pdone.
 Lemma done_read_message g : done_m (read_message g).
 Proof. unfold read_message. dnm. Qed.
-#[export] Hint Resolve done_read_message  : pdone.
+#[local] Hint Resolve done_read_message  : pdone.
 Lemma done_read_union_loop g : forall fs cm tags dm dep, done_m (read_union_loop g fs cm tags dm dep).
 Proof. induction g as [|g IH]; intros; cbn [read_union_loop]; dnm. Qed.
-#[export] Hint Resolve done_read_union_loop  : pdone.
+#[local] Hint Resolve done_read_union_loop  : pdone.
 Lemma done_read_union g : done_m (read_union g).
 Proof. unfold read_union. dnm. Qed.
-#[export] Hint Resolve done_read_union  : pdone.
+#[local] Hint Resolve done_read_union  : pdone.
 Lemma done_read_const g : done_m (read_const g).
 Proof. unfold read_const. dnm. Qed.
-#[export] Hint Resolve done_read_const  : pdone.
+#[local] Hint Resolve done_read_const  : pdone.
 Lemma done_read_opcode : done_m read_opcode.
 Proof. unfold read_opcode. dnm. Qed.
-#[export] Hint Resolve done_read_opcode  : pdone.
+#[local] Hint Resolve done_read_opcode  : pdone.
 Lemma done_top_loop g : forall f cm opc ro bf, done_m (top_loop g f cm opc ro bf).
 Proof. induction g as [|g IH]; intros; cbn [top_loop]; dnm. Qed.
 
 
 
 (* ---------- computations that return a value only with nothing but `false` answers left ---------- *)
-Definition oke {A} (m : M A) : Prop := forall s, cc (rs s) -> match m s with POk _ s' => Forall is_nf (rs s') | _ => True end.
+Definition oke {A} (m : M A) : Prop := forall s, P (rs s) -> match m s with POk _ s' => P (NF [] :: rs s') | _ => True end.
 Lemma oke_fail {A} : oke (@fail A). Proof. intros s H. exact I. Qed.
 Lemma oke_nofuel {A} : oke (@nofuel A). Proof. intros s H. exact I. Qed.
 Lemma oke_bind_r {A B} (m : M A) (f : A -> M B) : done_m m -> (forall a, oke (f a)) -> oke (bind m f).
@@ -130,19 +134,50 @@ Proof.
   - cbn [negb].
     match goal with |- match ?m ?st with _ => _ end => cut (oke m); [intros G; exact (G st Hd)|] end. okt IH.
   - destruct (rs s) as [|[t e|e|] r] eqn:Er; try exact I.
-    + cbn [negb]. assert (Hr : cc r) by exact (cc_tl _ _ Hd).
+    + cbn [negb]. assert (Hr : P r) by exact (P_tl _ _ Hd).
       match goal with |- match ?m ?st with _ => _ end => cut (oke m); [intros G; exact (G st Hr)|] end. okt IH.
-    + cbn [negb]. unfold bind, p_haserr. cbn [perrs]. destruct e; [|exact I]. cbn [ret rs]. cbn [cc] in Hd. exact (proj1 Hd).
+    + cbn [negb]. unfold bind, p_haserr. cbn [perrs]. destruct e; [|exact I]. cbn [ret rs]. exact Hd.
+Qed.
+
+End Forward.
+
+Definition st0 (input : bytes) (fails : bool) : pst :=
+  {| rs := next_results (length input + margin)
+             {| buf := {| rest := input; lastByte := None; lastRune := None; failing := fails |}; errs := [] |};
+     cur := tok0; keep := false; perrs := [] |}.
+
+(* whatever suffix-closed property the precomputed result list has, it holds of `clean false :: what is left` when a File is returned *)
+Lemma read_file_returns_at (P : list nres -> Prop) (P_tl : forall x r, P (x :: r) -> P r) input fails f s' :
+  P (rs (st0 input fails)) -> read_file input fails = POk f s' -> P (NF [] :: rs s').
+Proof.
+  intros H0 E. unfold read_file in E.
+  pose proof (top_oke P P_tl (2 * (length input + margin) + 8)
+    {| structs := []; messages := []; enums := []; unions := []; consts := []; imports := []; gopackage := [] |} [] 0%N false false
+    (st0 input fails) H0) as H.
+  unfold st0 in H. rewrite E in H. exact H.
 Qed.
 
 Theorem read_file_consumes_input input fails f s' : read_file input fails = POk f s' -> Forall is_nf (rs s').
 Proof.
-  intros E. unfold read_file in E.
-  pose proof (top_oke (2 * (length input + margin) + 8)
-    {| structs := []; messages := []; enums := []; unions := []; consts := []; imports := []; gopackage := [] |} [] 0%N false false) as H.
-  specialize (H {| rs := next_results (length input + margin)
-                      {| buf := {| rest := input; lastByte := None; lastRune := None; failing := fails |}; errs := [] |};
-                   cur := tok0; keep := false; perrs := [] |}).
-  cbn [rs] in H. rewrite E in H. apply H. apply results_clean_closed. intros [].
+  intros E. pose proof (read_file_returns_at cc cc_tl input fails f s') as H.
+  assert (H0 : cc (rs (st0 input fails))) by (apply results_clean_closed; intros []).
+  specialize (H H0 E). cbn [cc] in H. exact (proj1 H).
 Qed.
 Print Assumptions read_file_consumes_input.
+
+(* ... and no error was dropped on the way: when a File is returned, the result list is  used ++ [clean false] ++ left,  where
+   no result in `used` - no token the parser was given - carried a tokenizer error (an error, once recorded, stays recorded:
+   front/TokSticky.v - so it would still be there at the `false` the parser returned on) and `left` holds only `false` answers *)
+Definition suffix_of (l0 l : list nres) : Prop := exists p0, l0 = p0 ++ l.
+Lemma suffix_tl l0 x r : suffix_of l0 (x :: r) -> suffix_of l0 r.
+Proof. intros [p0 ->]. exists (p0 ++ [x]). now rewrite <- app_assoc. Qed.
+Theorem read_file_no_error_dropped input fails f s' : read_file input fails = POk f s' ->
+  exists used, rs (st0 input fails) = used ++ NF [] :: rs s' /\ Forall (fun y => ~ dirty y) used /\ Forall is_nf (rs s').
+Proof.
+  intros E.
+  destruct (read_file_returns_at (suffix_of (rs (st0 input fails))) (suffix_tl _) input fails f s' (ex_intro _ [] eq_refl) E) as [used U].
+  exists used. split; [exact U|]. split; [|exact (read_file_consumes_input input fails f s' E)].
+  apply (sticky_clean_before used (NF []) (rs s')); [|cbn; congruence].
+  rewrite <- U. apply results_sticky. intros [].
+Qed.
+Print Assumptions read_file_no_error_dropped.
